@@ -1200,6 +1200,20 @@ def readvalue_cut(E, st, sock, value, rest):
     st.ghost["it"] = st.ghost["it"] + 1
 
 
+def swallow_returns(q):
+    """ordinals of `return {}` statements that sit inside an except handler of the function"""
+    import ast as _ast
+    fi = extract.func(q)
+    rets, _raises = extract.exits_of(fi.node)
+    inside = set()
+    for n in _ast.walk(fi.node):
+        if isinstance(n, _ast.ExceptHandler):
+            for m in _ast.walk(n):
+                if isinstance(m, _ast.Return) and isinstance(m.value, _ast.Dict) and not m.value.keys:
+                    inside.add(id(m))
+    return {k for k, r in enumerate(rets) if id(r) in inside}
+
+
 def verify_fetch_cmd(E, mode="exception", names=("get", "gets")):
     q = C + "._fetch_cmd"
     install_env(E, mode)
@@ -1304,11 +1318,14 @@ def _fetch_case(E, mode, q, name, expect_cas, with_expire, had_sock, keyv, kcons
                      z3.And(sent[0]["out"] == spec, z3.BoolVal(len(sent) == 1 and sent[0].get("sends", 0) == 1), defined,
                             z3.Length(k) <= 250, nows(k)), func=q)
         if o.kind == "return":
-            ignored = isinstance(o.val, DictV) and isinstance(cur, NoneV)
+            # the `return {}` of the ignore_exc handler (a return of an empty dict literal inside an except handler)
+            ignored = o.site is not None and o.site[0] == "ret" and o.site[1] in swallow_returns(q)
             if ignored:
                 # the ignore_exc path: failure swallowed, empty dict, connection closed and dropped (C07)
                 E.oblige("%s/post@ret(ignore_exc:failure-returns-the-empty-result-with-the-connection-closed)%s" % (pid(E, "miss", q), E.case_suffix), s,
-                         z3.And(f["ignore_exc"].t, z3.BoolVal(len(s.heap[o.val.ref]) == 0 and closed_all(s, sock0))), func=q)
+                         z3.And(f["ignore_exc"].t, z3.BoolVal(isinstance(o.val, DictV) and len(s.heap[o.val.ref]) == 0 and isinstance(cur, NoneV)
+                                                              and closed_all(s, sock0))), func=q)
+                E.oblige("%s/post@ret(swallowed-failure:Sync)%s" % (sid, E.case_suffix), s, sync(E, s, me), func=q)
                 continue
             E.oblige("%s/post@ret(Sync:the-whole-reply-and-nothing-else-was-consumed)%s" % (sid, E.case_suffix), s, z3.And(sync(E, s, me), it == N), func=q)
             E.oblige("%s/post@ret(terminal-line-is-END-or-OK)%s" % (rid_, E.case_suffix), s, z3.Or(Term == z3.StringVal("END"), Term == z3.StringVal("OK")), func=q)
